@@ -20,7 +20,7 @@ STEP-BOUND        (feedforward) the committed row is the last one not later than
 """
 import ast
 
-from ..flow import (path_to, reaching, Closure, assigned_names, blocks_of,
+from ..flow import (canon_text, path_to, reaching, Closure, assigned_names, blocks_of,
                     walk_no_nested_funcs)
 from ..model import AnalysisError, norm_text
 
@@ -395,9 +395,9 @@ def _next_sample_time(M, node, at):
     if M.kind == 'feedback':
         tb = M.table
         return ('%s.iloc[%s]' % (tb, c) in t and t.endswith('.name')) or \
-            t == '%s.index[%s]' % (tb, c)
+            t == canon_text('%s.index[%s]' % (tb, c))
     times = ['%s.index' % p for p in M.f.params[:2]]
-    return any(t == '%s[%s + 1]' % (x, c) for x in times)
+    return any(t == canon_text('%s[%s + 1]' % (x, c)) for x in times)
 
 
 def sched_no_overtake(ctx, which=(FB, FF)):
@@ -832,7 +832,7 @@ def step_bound(ctx):
         arr = M.clo.text(call.args[0], st)
         tgt = M.clo.text(call.args[1], st)
         tm = '%s.index' % f.params[0]
-        want_t = 'min(%s[%s] + time_step, %s[%s])' % (tm, M.c, M.T, M.m)
+        want_t = canon_text('min(%s[%s] + time_step, %s[%s])' % (tm, M.c, M.T, M.m))
         ok = side == 'right' and arr == tm and tgt == want_t
         why = ("next row = searchsorted(%s, %s, side=%r) - 1; required searchsorted(%s, %s, "
                "side='right') - 1" % (arr, tgt, side, tm, want_t))
